@@ -61,6 +61,7 @@ class LinearAbstraction:
     def __init__(self):
         self.memo = {}
         self.fresh = {}
+        self.side = []  # sound facts about the fresh variables (squares are non-negative)
 
     def _var(self, t):
         k = t.get_id()
@@ -87,7 +88,10 @@ class LinearAbstraction:
         if kind == z3.Z3_OP_MUL:
             nonnum = [c for c in ch if not (z3.is_rational_value(c) or z3.is_int_value(c))]
             if len(nonnum) >= 2:
-                return self._var(t)
+                v = self._var(t)
+                if len(nonnum) == 2 and len(ch) == 2 and nonnum[0].eq(nonnum[1]):
+                    self.side.append(v >= 0)
+                return v
             return z3.Product(*[self.conv(c) for c in ch]) if len(ch) > 1 else self.conv(ch[0])
         if kind == z3.Z3_OP_DIV:
             if z3.is_rational_value(ch[1]) or z3.is_int_value(ch[1]):
@@ -198,6 +202,7 @@ class Session:
             try:
                 la = LinearAbstraction()
                 acs = [la.conv(c) for c in cs]
+                acs += la.side
                 vA, _, dtA1 = self._solve(acs, min(5000, timeout_ms or self.timeout_ms))
                 dtA += dtA1
                 if vA == "unsat":
